@@ -35,7 +35,7 @@ def better(a, b, minimize):
     return a < b if minimize else a > b
 
 
-def run_elitism(values, entries, k, minimize, form, rec, tag):
+def run_elitism(values, entries, k, minimize, form, rec, tag, number_form=None):
     from collections import Counter
 
     from geneticengine.algorithms.gp.operators.elitism import ElitismStep
@@ -46,7 +46,9 @@ def run_elitism(values, entries, k, minimize, form, rec, tag):
     from geneticengine.random.sources import NativeRandomSource
     from geneticengine.solutions.individual import Individual
 
-    problem = SingleObjectiveProblem(lambda p: p[1], minimize=minimize)
+    from vk.values import as_form
+
+    problem = SingleObjectiveProblem(lambda p: as_form(p[1], number_form), minimize=minimize)
     ev = SequentialEvaluator()
     rep = TableRep()
     table = [Individual((i, v), rep) for i, v in enumerate(values)]
@@ -124,22 +126,24 @@ class GeneratedElitism(Facet):
         return (300, 2) if tier == "quick" else (2000, 16)
 
     def strategy(self, tier):
-        from vk.values import single_objective_values
+        from vk.values import NUMBER_FORMS, single_objective_values
 
         val = single_objective_values()
         return st.one_of(st.integers(1, 12), st.integers(1, 12 if tier == "quick" else 80)).flatmap(
             lambda n: st.builds(
-                lambda values, entries, kk, minimize, form: {"values": values, "entries": entries, "k": 1 + kk % len(entries), "minimize": minimize, "form": form},
+                lambda values, entries, kk, minimize, form, nf: {"values": values, "entries": entries, "k": 1 + kk % len(entries), "minimize": minimize, "form": form, "number_form": nf},
                 st.lists(val, min_size=n, max_size=n),
                 st.lists(st.integers(0, n - 1), min_size=1, max_size=max(12, n)),
                 st.integers(0, max(11, n - 1)),
                 st.booleans(),
                 st.sampled_from(["list", "population"]),
+                st.sampled_from(NUMBER_FORMS),
             ),
         )
 
     def run(self, case, rec):
-        run_elitism(case["values"], case["entries"], case["k"], case["minimize"], case["form"], rec, "generated")
+        rec.label("numbers:" + str(case.get("number_form")))
+        run_elitism(case["values"], case["entries"], case["k"], case["minimize"], case["form"], rec, "generated", case.get("number_form"))
         vals = sorted((case["values"][i] for i in case["entries"]), reverse=not case["minimize"])
         k = case["k"]
         if k < len(vals) and vals[k - 1] == vals[k]:
